@@ -210,7 +210,9 @@ TAdv ==
            clears == p = 7
            base == IF clears THEN EmptyPool(U) ELSE pl[n]
            bf == IF clears THEN NoFlags ELSE fl[n]
-       IN /\ Ceremony(e, base, bf, Attempts(p, clk), clears, FALSE)
+           \* the delayed package broadcast draws its delay from 0..119 s: a zero draw publishes at once (no goroutine is left parked)
+           now == IF RelPos(p) = 1 /\ e.view.delayed = 0 THEN <<1>> ELSE <<>>
+       IN /\ Ceremony(e, base, bf, Attempts(p, clk) \o now, clears, FALSE)
           /\ Drift("position", p = pp[n] + 1)
           /\ Drift("stop-flag", (e.pool.stop = 1) = StopAfter(p, clk, base.stop))
           /\ Drift("delayed-flag", (e.view.delayed = 1) = (IF RelPos(p) = 1 THEN e.view.delayed = 1 ELSE IF clears THEN FALSE ELSE fl[n].delayed))
@@ -238,7 +240,8 @@ TRestart ==
            n == e.n
            p == pp[n]
            base == RestartPool(U, IF p = 7 THEN EmptyPool(U) ELSE pl[n], StopAfterRestart(p, clk))
-       IN /\ Ceremony(e, base, NoFlags, Attempts(p, clk), FALSE, TRUE)
+           now == IF RelPos(p) = 1 /\ e.view.delayed = 0 THEN <<1>> ELSE <<>>
+       IN /\ Ceremony(e, base, NoFlags, Attempts(p, clk) \o now, FALSE, TRUE)
           /\ Drift("stop-flag", (e.pool.stop = 1) = StopAfter(p, clk, base.stop))
           /\ Drift("timer-flag", (e.view.timer = 1) = ArmedAfterRestart(p, clk))
     /\ UNCHANGED <<clk, maxs>>
